@@ -56,6 +56,12 @@ def fmtVOut : C01.Out → String
   | .ptr (some x) => s!"ptr={x}"
   | .ref x => s!"ref={x}"
   | .rels bs => "rel=" ++ String.join (bs.map fmtBool)
+  -- results of C01's named-rvalue operations (`Op.pushMv` …): no `vec.*` line maps to them (parseVecOp), never produced here
+  | .unitArg _ => "ok"
+  | .itArg n _ => s!"it={n}"
+  | .ptrArg none _ => "null"
+  | .ptrArg (some x) _ => s!"ptr={x}"
+  | .refArg x _ => s!"ref={x}"
 
 def fmtVec (d : List Nat) : String := s!"n={d.length} d={fmtNatList d}"
 
